@@ -834,12 +834,15 @@ class DocTest:
                 except KeyboardInterrupt:  # nocover
                     raise
                 except Exception:
-                    raise
-                    # self.exc_info = sys.exc_info()
-                    # ex_type, ex_value, tb = self.exc_info
-                    # self.failed_tb_lineno = tb.tb_lineno
-                    # if on_error == 'raise':
-                    #     raise
+                    # An error found when the part is compiled (e.g. a
+                    # ``return`` outside of a function) fails the doctest
+                    # like any other exception.
+                    self.exc_info = sys.exc_info()
+                    ex_type, ex_value, tb = self.exc_info
+                    self.failed_tb_lineno = getattr(ex_value, 'lineno', None) or 1
+                    if on_error == 'raise':
+                        raise
+                    break
                 try:
                     # Execute the doctest code
                     try:
@@ -1324,7 +1327,13 @@ class DocTest:
                         if self._partfilename is not None and self._partfilename in line:
                             # Intercept the line corresponding to the doctest
                             tbparts = line.split(',')
-                            tb_lineno = int(tbparts[-2].strip().split()[1])
+                            try:
+                                tb_lineno = int(tbparts[-2].strip().split()[1])
+                            except (IndexError, ValueError):
+                                # Not a frame line (e.g. the location line of
+                                # a SyntaxError), keep it as it is.
+                                new_tblines.append(line)
+                                continue
                             # modify the line number to match the doctest
                             linepart = tbparts[-2].split(' ')
 
